@@ -994,51 +994,58 @@ func runC04(c *Ctx) {
 	// whatever its text (an item with empty text may still declare a size)
 	if upd := c.Method(c.Named("", "Cell"), true, "Update"); upd != nil {
 		rawF := c.Field(c.Named("", "Cell"), "raw")
+		unit := updateUnitOf(c, upd)
 		arms := typeSwitchArms(upd, rawF)
+		for _, f := range sortedFuncs(unit) {
+			if a2 := typeSwitchArms(f, rawF); len(a2) > len(arms) {
+				arms = a2
+			}
+		}
+		armEntry := map[ssa.Instruction]string{}
+		for _, a := range arms {
+			if a.Kind == "nil" || (a.Kind == "concrete" && isNamed(a.Type, modPath, "Cell")) || a.Entry == nil || len(a.Entry.Instrs) == 0 {
+				continue
+			}
+			armEntry[a.Entry.Instrs[0]] = a.name()
+		}
 		for _, iface := range []struct{ name, method, field string }{{"Heighter", "Height", "height"}, {"TerminalCellWidther", "TerminalCellWidth", "width"}} {
 			var ta *ssa.TypeAssert
-			eachInstr(upd, func(in ssa.Instruction) {
-				if x, ok := in.(*ssa.TypeAssert); ok && x.CommaOk && isNamed(x.AssertedType, modPath, iface.name) {
-					if f, _ := loadedField(x.X); f == rawF {
-						ta = x
+			for _, uf := range sortedFuncs(unit) {
+				eachInstr(uf, func(in ssa.Instruction) {
+					if x, ok := in.(*ssa.TypeAssert); ok && x.CommaOk && isNamed(x.AssertedType, modPath, iface.name) {
+						if f, _ := loadedField(x.X); f == rawF {
+							ta = x
+						}
 					}
-				}
-			})
+				})
+			}
 			if ta == nil {
 				r.Check("R04.4", FuncName(upd), "consults the item's "+iface.method+"()", upd.Pos(), false, "no assertion to "+iface.name)
 				continue
 			}
 			ok, why := true, ""
-			for _, a := range arms {
-				if a.Kind == "nil" || (a.Kind == "concrete" && isNamed(a.Type, modPath, "Cell")) {
-					continue
-				}
-				// every path from the arm to a return passes the assertion
-				seen := map[*ssa.BasicBlock]bool{}
-				var walk func(b *ssa.BasicBlock) bool
-				walk = func(b *ssa.BasicBlock) bool {
-					if seen[b] {
-						return true
+			if unitHasLoop(unit) {
+				r.Note("shape-unrecognised R04.4: Update contains a loop; that the item's " + iface.method + "() is consulted on every path is not evaluated")
+			} else {
+				// every path that enters a text arm reaches the assertion before Update returns (helpers followed inline)
+				w := &pathWalker{unit: unit}
+				w.onInstr = func(fn *ssa.Function, in ssa.Instruction, st string) string {
+					b := []byte(st)
+					if nm, isArm := armEntry[in]; isArm {
+						b[0] = 'a'
+						_ = nm
 					}
-					seen[b] = true
-					for _, in := range b.Instrs {
-						if in == ssa.Instruction(ta) {
-							return true
-						}
-						if _, isRet := in.(*ssa.Return); isRet {
-							return false
-						}
+					if in == ssa.Instruction(ta) {
+						b[1] = 'y'
 					}
-					for _, s := range b.Succs {
-						if !walk(s) {
-							return false
-						}
+					return string(b)
+				}
+				w.onReturn = func(ret *ssa.Return, st string) {
+					if st[0] == 'a' && st[1] != 'y' {
+						ok, why = false, "there is a path through a text arm to return that never asks the item for its "+iface.method+"()"
 					}
-					return true
 				}
-				if !walk(a.Entry) {
-					ok, why = false, "for "+a.name()+" there is a path to return that never asks the item for its "+iface.method+"()"
-				}
+				w.run(upd, "--")
 			}
 			// the ok edge stores the declared value
 			stored := false
